@@ -44,8 +44,12 @@ PROP = {
             "chains of 1..4 stages and three fan-out/fan-in shapes, 1..5 messages carrying a lineage id, scripted faults {handler error, handler "
             "panic, publish error, publish panic, error after the message was handed on} on the k-th call of a stage, injected by a handler wrapper "
             "and a publisher wrapper (passed to AddHandler or installed with AddPublisherDecorators), optional foreign subscriber (tap) on the source "
-            "topic, seeded yield injection at all router.* / gochannel.* hook points and in the wrappers. Quick: every placement of <= 2 faults "
-            "(5 kinds x stage x call 1..3) on chains of <= 2 stages with <= 2 messages (1174 cases) + 200 random longer scripts; thorough adds every "
+            "topic, seeded yield injection at all router.* / gochannel.* hook points and in the wrappers. Stages may emit 2..3 outputs per input (derived lineages l*w+j, the sink must see "
+            "every derived lineage); px faults refuse the Publish call that contains output #j of the k-th invocation of a stage. "
+            "Quick: every placement of <= 2 faults "
+            "(5 kinds x stage x call 1..3) on chains of <= 2 stages with <= 2 messages (1174 cases) + every placement of <= 2 faults among "
+            "{px x invocation 1..2 x position, 5 kinds x stage x call 1} on the multi-output chains 1x2, 1x3, 1x2/2, 1/2x2 (650 cases) "
+            "+ 200 random longer scripts (a third of the chains with multi-output stages); thorough adds every "
             "placement of <= 3 faults on the 3-stage chain (calls 1..3, 15226 cases) and 5000 random. Oracle: the recorded event trace must be a run "
             "of the Lean model Pipeline.act ending in a terminal state (M line) and must satisfy the C01 monitor (P line): Ack only after the "
             "output Publish of that invocation returned nil, sink lineages were published at the source, every successfully published lineage "
@@ -69,7 +73,11 @@ PROP = {
     "assumptions": [
         "all subscriptions exist before the first source message is published and none is cancelled while messages flow (blocking mode would otherwise "
         "run into the known finding C05 nested-publish+pending-writer)",
-        "every handler forwards exactly one output per input; faults are finite (script) and hit at most once each",
+        "every handler forwards 1..3 outputs per input, all returned together; faults are finite (script) and hit at most once each",
+        "multi-output stages: the Lean model keeps its source-lineage abstraction (a stage of width w is a successor list repeated w times, so the "
+        "model counts the copies owed and its theorems speak about source lineages); that EVERY derived lineage reaches the sink and that the Ack "
+        "follows the acceptance of EVERY output is decided by the monitor on the recorded traces, not by a theorem; multi-output stages are "
+        "generated in chains only",
         "real goroutine schedules are sampled (yield/sleep injection), the theorems quantify over all schedules of the model",
     ],
     "level_text": "Proof (Lean 4) over all pipeline DAGs, all source and fault scripts and all schedules of the obligation model: no published lineage is "
